@@ -239,7 +239,9 @@ impl AsyncReader {
     ///
     /// Returns `Some` with an index if a request was submitted. Otherwise, `None`.
     pub fn submit(&mut self, io_handle: &IoHandle, user_data: u64) -> Option<usize> {
-        if self.is_done_requesting() {
+        // The numbers of the pages beyond those listed in the cell are only known once the
+        // pages carrying them have been received and parsed.
+        if self.is_done_requesting() || self.request_index >= self.pages.len() {
             return None;
         }
 
